@@ -61,7 +61,8 @@ def gen(seed):
     clusters = rng.choice(ids, size=n).astype(np.int64)
     kept = int(rng.integers(1, m + 2))
     count = [None, 0, 1, 3, 100][int(rng.integers(0, 5))]
-    req = [[], [int(ids[0])], ids.tolist(), ids[::-1].tolist() + [77], [77]][int(rng.integers(0, 5))]
+    req = [[], [int(ids[0])], ids.tolist(), ids[::-1].tolist() + [77], [77],
+           ids.tolist() + [int(ids[0])], [int(ids[-1]), 77, int(ids[-1])]][int(rng.integers(0, 7))]      # also ids named twice
     subset_chunks = bool(rng.integers(0, 2))
     subset_spikes = None
     if rng.random() < 0.4:
@@ -210,7 +211,10 @@ def run_case(case, ctx):
                   cell=('m%d' % m, 'count_%s' % count, 'sc%d' % subset_chunks, 'ss%d' % (subset_spikes is not None)))
         np.random.seed(1000 * rs + 17)
         req_arg = [req, tuple(req), np.array(req, dtype=np.int64)][rs % 3]      # list / tuple / array of cluster ids
-        rr = call(sel, count, req_arg, subset_chunks=subset_chunks, subset_spikes=subset_spikes)
+        if rs % 2:
+            rr = call(sel, count, req_arg, subset_chunks, subset_spikes)            # the documented positional order
+        else:
+            rr = call(sel, count, req_arg, subset_chunks=subset_chunks, subset_spikes=subset_spikes)
         if not rr.ok:
             ctx.violation('raised', desc, 'selector() raised %r' % rr.exc, feats, tb=rr.tb)
             break
